@@ -264,6 +264,8 @@ func runC14(l *core.Ledger) {
 	l.Rule("C14-G8", "NodeIDs, Nodes, Size, Equal read nothing but their operands")
 	l.Rule("C14-G9", "pooled identity: nodes reach a result only from mgr.Node (found), a constructor result after AddNode returned nil, or an operand; who-may-construct RawNode = constructors; who-may-insert = AddNode")
 
+	l.Rule("C14-G10", "a node carries its whole resolved address: every value stored in RawNode.addr depends on (*net.TCPAddr).String() of the resolved address, on the caller's address text itself, or on all of the resolved address's components (IP, Port, Zone) - an address rebuilt from some of its parts maps distinct addresses to one")
+
 	ctors := findCtors(l, r)
 	if !l.Floor("C14-G1", len(ctors), 5, "newConfig implementations") {
 		return
@@ -276,6 +278,7 @@ func runC14(l *core.Ledger) {
 	c14G7(l, r)
 	c14G8(l, r)
 	c14G9who(l, r)
+	c14G10(l, r)
 }
 
 func c14Ctor(l *core.Ledger, r *rt, c *cfgCtor) {
@@ -1036,4 +1039,178 @@ func c14G9who(l *core.Ledger, r *rt) {
 	}
 	l.Check(okM, "C14-G9", "who-may-construct/RawNode", token.NoPos, fmt.Sprintf("%v", makers), fmt.Sprintf("RawNode values are built by %v", makers))
 	l.Check(len(inserters) == 1 && inserters[0] == "gorums.(RawManager).AddNode", "C14-G9", "who-may-insert/pool", token.NoPos, "only AddNode", fmt.Sprintf("the node pool is modified by %v", inserters))
+}
+
+// c14G10: address fidelity. Distinct addresses can only stay distinct nodes
+// (or be reported by G3's comparison) if a node's addr field keeps every
+// component of the resolved address. The rule follows the data dependences of
+// every value stored into RawNode.addr back to their sources.
+func c14G10(l *core.Ledger, r *rt) {
+	n := 0
+	for _, f := range allFuncs(l.Prog, r.pkg) {
+		f := f
+		sx.AllInstrs(f, func(_ sx.Node, in ssa.Instruction) {
+			st, ok := in.(*ssa.Store)
+			if !ok {
+				return
+			}
+			fa, ok := st.Addr.(*ssa.FieldAddr)
+			if !ok || !isNamed(fa.X.Type(), core.RootModule, "RawNode") {
+				return
+			}
+			fld := fieldOf(fa.X.Type(), fa.Field)
+			if fld == nil || fld.Name() != "addr" {
+				return
+			}
+			n++
+			key := fmt.Sprintf("%s/addr-store%d", fnKey(f), n)
+			whole, raw, opaque := false, false, ""
+			parts := map[string]bool{}
+			seen := map[ssa.Value]bool{}
+			var walk func(v ssa.Value, depth int)
+			walk = func(v ssa.Value, depth int) {
+				if v == nil || seen[v] || depth > 40 {
+					return
+				}
+				seen[v] = true
+				switch x := v.(type) {
+				case *ssa.Const, *ssa.Global, *ssa.Function, *ssa.Builtin:
+				case *ssa.Parameter:
+					if b, isB := x.Type().Underlying().(*types.Basic); isB && b.Kind() == types.String {
+						raw = true
+					} else if isNamed(x.Type(), "net", "TCPAddr") {
+						whole = true // an address handed in as a whole
+					}
+				case *ssa.Call:
+					cc := &x.Call
+					if sx.StaticCalleeName(cc) == "(*net.TCPAddr).String" || sx.StaticCalleeName(cc) == "net.(*TCPAddr).String" {
+						whole = true
+						return
+					}
+					if f := cc.StaticCallee(); f != nil && f.Signature.Recv() != nil && f.Name() == "String" && isNamed(f.Signature.Recv().Type(), "net", "TCPAddr") {
+						whole = true
+						return
+					}
+					if cc.IsInvoke() {
+						walk(cc.Value, depth+1)
+					} else if _, isB := cc.Value.(*ssa.Builtin); !isB {
+						if cc.StaticCallee() == nil {
+							walk(cc.Value, depth+1)
+						}
+					}
+					for _, a := range cc.Args {
+						walk(a, depth+1)
+					}
+				case *ssa.Extract:
+					walk(x.Tuple, depth+1)
+				case *ssa.UnOp:
+					if x.Op == token.MUL {
+						if fa2, isFA := x.X.(*ssa.FieldAddr); isFA && isNamed(fa2.X.Type(), "net", "TCPAddr") {
+							if fl := fieldOf(fa2.X.Type(), fa2.Field); fl != nil {
+								parts[fl.Name()] = true
+							}
+							return
+						}
+						if al, isAl := x.X.(*ssa.Alloc); isAl {
+							for _, ref := range *al.Referrers() {
+								if s2, isSt := ref.(*ssa.Store); isSt && s2.Addr == ssa.Value(al) {
+									walk(s2.Val, depth+1)
+								}
+							}
+							return
+						}
+						if fa2, isFA := x.X.(*ssa.FieldAddr); isFA {
+							// a field of some other struct (for instance the node under construction):
+							// follow the stores into that field in this function
+							fl := fieldOf(fa2.X.Type(), fa2.Field)
+							found := false
+							sx.AllInstrs(x.Parent(), func(_ sx.Node, in2 ssa.Instruction) {
+								if s2, isSt := in2.(*ssa.Store); isSt {
+									if fa3, isFA3 := s2.Addr.(*ssa.FieldAddr); isFA3 && fieldOf(fa3.X.Type(), fa3.Field) == fl {
+										found = true
+										walk(s2.Val, depth+1)
+									}
+								}
+							})
+							if !found {
+								opaque = "load of " + fl.Name()
+							}
+							return
+						}
+					}
+					walk(x.X, depth+1)
+				case *ssa.Field:
+					if isNamed(x.X.Type(), "net", "TCPAddr") {
+						if fl := fieldOf(x.X.Type(), x.Field); fl != nil {
+							parts[fl.Name()] = true
+						}
+						return
+					}
+					walk(x.X, depth+1)
+				case *ssa.BinOp:
+					walk(x.X, depth+1)
+					walk(x.Y, depth+1)
+				case *ssa.Phi:
+					for _, e := range x.Edges {
+						walk(e, depth+1)
+					}
+				case *ssa.Convert:
+					walk(x.X, depth+1)
+				case *ssa.ChangeType:
+					walk(x.X, depth+1)
+				case *ssa.MakeInterface:
+					walk(x.X, depth+1)
+				case *ssa.ChangeInterface:
+					walk(x.X, depth+1)
+				case *ssa.Slice:
+					walk(x.X, depth+1)
+				case *ssa.Alloc:
+					for _, ref := range *x.Referrers() {
+						switch u := ref.(type) {
+						case *ssa.Store:
+							if u.Addr == ssa.Value(x) {
+								walk(u.Val, depth+1)
+							}
+						case *ssa.IndexAddr:
+							for _, r2 := range *u.Referrers() {
+								if s2, isSt := r2.(*ssa.Store); isSt && s2.Addr == ssa.Value(u) {
+									walk(s2.Val, depth+1)
+								}
+							}
+						}
+					}
+				case *ssa.IndexAddr:
+					walk(x.X, depth+1)
+				case *ssa.Index:
+					walk(x.X, depth+1)
+				case *ssa.Lookup:
+					walk(x.X, depth+1)
+				case *ssa.FieldAddr:
+					walk(x.X, depth+1)
+				default:
+					opaque = fmt.Sprintf("%T", v)
+				}
+			}
+			walk(st.Val, 0)
+			switch {
+			case whole:
+				l.OK("C14-G10", key, st.Pos(), "depends on the resolved address's String()")
+			case parts["IP"] && parts["Port"] && parts["Zone"]:
+				l.OK("C14-G10", key, st.Pos(), "depends on IP, Port and Zone of the resolved address")
+			case len(parts) > 0:
+				var missing []string
+				for _, p := range []string{"IP", "Port", "Zone"} {
+					if !parts[p] {
+						missing = append(missing, p)
+					}
+				}
+				l.Bad("C14-G10", key, st.Pos(), fmt.Sprintf("the node's address is rebuilt from parts of the resolved address without its %s: addresses that differ only there become one node (or two nodes carrying the same address), silently", strings.Join(missing, ", ")))
+			case raw && opaque == "":
+				l.OK("C14-G10", key, st.Pos(), "the caller's address text itself")
+			default:
+				l.Unknown("C14-G10", key, st.Pos(), "cannot tell what the stored address depends on ("+opaque+")")
+			}
+		})
+	}
+	l.Floor("C14-G10", n, 1, "stores into RawNode.addr")
 }
